@@ -143,6 +143,12 @@ def apply_edit(f, s):
                 t.cmap[s["cp"]] = s["glyph"]
     elif k == "os2":
         setattr(f["OS/2"], s["field"], s["v"])
+    elif k == "glyfscale":
+        # a fractional transformation of one outline: leaves non-integer coordinates in memory (the compiler rounds a copy)
+        if "glyf" in f:
+            g = f["glyf"][s["glyph"]]
+            if g.numberOfContours > 0:
+                g.coordinates.scale((s["k"], s["k"]))
     else:
         raise HarnessError("unknown edit %r" % (s,))
 
@@ -578,6 +584,12 @@ def run_machine(job, acc):
             if "OS/2" not in etables:
                 return
             self.h.apply(dict(op="edit", kind="os2", field=fv[0], v=fv[1], check=c))
+
+        @rule(i=idx, k=st.sampled_from([0.25, 0.3, 1.7, 0.5, 1.0 / 3]), c=chk)
+        def edit_glyfscale(self, i, k, c):
+            if "glyf" not in etables:
+                return
+            self.h.apply(dict(op="edit", kind="glyfscale", glyph=glyph_of(i), k=k, check=c))
 
         def teardown(self):
             if self.h is not None:
